@@ -18,7 +18,7 @@ RULE = ("inputs = for each base path (rendering of one universe Sid per path-typ
         "component, append '/x', '/', newline, an extension, remove the last component, swap the root for the other "
         "configuration's, a foreign path. Each evaluated cold and after the other configuration resolved the same string. "
         "distinct = distinct (path, configuration); non-trivial = differs from a valid path by <= k edits (all).")
-ASSUMPTIONS = ["typed result is compared by Path(result.path(c)) == Path(p)"]
+ASSUMPTIONS = ["a typed result must satisfy str(result.path(c)) == p (the statement says 'exactly p'; '//' or a trailing '/' are other strings)"]
 
 
 def tokens(pr, typ, fields):
@@ -97,6 +97,13 @@ def single_edits(ref, pr, typ, toks, root, other_root):
         yield root + "/".join(comps[:i] + [comps[i]] + comps[i:])
     for tail in ("/x", "/", "\n", ".ma", " ", "/.", "//x"):
         yield full + tail
+    # equivalent spellings of separators (pathlib would normalise them): every separator doubled / dotted
+    seps = [i for i, ch in enumerate(rel) if ch == "/"]
+    for i in seps:
+        yield root + rel[:i] + "//" + rel[i + 1:]
+        yield root + rel[:i] + "/./" + rel[i + 1:]
+    yield root.rstrip("/") + "//" + rel
+    yield "/." + full
     yield os.path.dirname(full) + "//" + os.path.basename(full)
     yield other_root + rel
     yield "/nowhere/" + rel
@@ -150,12 +157,12 @@ def check_case(ref, prefs, owners, case):
             back = x.path(c)
         except Exception as e:  # noqa
             return [dict(signature=f"typed-result/path-raises/{type(e).__name__}", observed=repr(e), expected=p)], "typed"
-        if back is None or Path(back) != Path(p):
+        if back is None or str(back) != p:   # "exactly p": the string that was given, not an equivalent spelling of it
             sig = "typed-but-its-path-differs"
             if order == "after-other":
                 env.reset()
                 y = Sid(path=p, config=c)
-                if not y or (y.path(c) is not None and Path(y.path(c)) == Path(p)):
+                if not y or (y.path(c) is not None and str(y.path(c)) == p):
                     sig += "/answer-of-other-configuration-served"
             if not sig.endswith("served"):
                 if p.endswith("\n"):
